@@ -1,5 +1,9 @@
 import Pcore.Props.C17
 open Pcore.Object
+#print axioms C17_wf_define
+#print axioms C17_wf_env
+#print axioms C17_wf_noSerialization
+#print axioms C17_schema
 #print axioms C17_get
 #print axioms C17_get_constant
 #print axioms C17_get_named
